@@ -320,6 +320,7 @@ static void run_campaigns(Ctx& ctx) {
 
 static void driver_init() {
   cbor_set_allocs(va::vmalloc, va::vrealloc, va::vfree);
+  tp::allow_unassigned_simple = true;
   va::g.single_cap = (size_t)1 << 24;
 }
 static const char* kDriverName = "drv_fault";
